@@ -229,6 +229,11 @@ func genC18(r *Rng, tier string) *Plan {
 	for _, e := range ents {
 		p.Add(Op{K: "put-ent", Spec: e})
 		if r.Chance(1, 8) {
+			// an artifact with nothing usable in it (empty, a hash line only, other text): still the
+			// entity's artifact path, still not to be touched by a run that refuses the directory
+			p.Add(Op{K: "put-file", Path: e.PemPath(), Data: Pick(r, []string{"", "#HASH:AAAAAAAAAAAAAAAAAAAAAAAAAAA=\n", "this is not a pem file\n", "\n\n"}), Label: "unusable-artifact"})
+		}
+		if r.Chance(1, 8) {
 			// a file of the user's whose name looks like a scratch copy of the artifact
 			p.Add(Op{K: "put-file", Path: e.PemPath() + Pick(r, []string{".tmp", ".bak", "~", ".new", ".part", ".swp"}), Data: "user data, not gopki's\n"})
 		}
